@@ -31,6 +31,9 @@ func T(names ...string) *Term {
 	return t.FillDefault()
 }
 
+// Mk builds one term node by op name (children not filled in).
+func Mk(op string, kid *Term, side ...*Term) *Term { return mk(op, kid, side...) }
+
 func mk(op string, kid *Term, side ...*Term) *Term {
 	o := OpByName[op]
 	if o == nil {
